@@ -79,32 +79,39 @@ def slice_inner(repo: Repo, R, prefix: str):
     if int_if is None or slice_if is None:
         raise AnalysisError(f"idiom-unknown: int / slice dispatch not found in {fi.site}")
     idx = ast.unparse(int_if.test.args[0])
-    guards = []  # (kind, polytext) for raising guards, split on `or`
-    norm_w = None
-    for n in ast.walk(int_if):
-        if isinstance(n, ast.If) and n is not int_if and au.raises(n.body):
-            tests = n.test.values if isinstance(n.test, ast.BoolOp) and isinstance(n.test.op, ast.Or) else [n.test]
-            for t in tests:
-                if isinstance(t, ast.Compare) and len(t.ops) == 1:
-                    guards.append(ast.Compare(X(t.left), t.ops, [X(t.comparators[0])]))
-                elif isinstance(t, ast.Compare) and len(t.ops) == 2:
-                    # chained: not (-w <= i < w) spelled the other way round is not accepted here
-                    guards.append(t)
-    # try every non-index atom of the guards as the width W
+    # candidate widths: every non-index atom compared against the index inside the integer arm; the bounds hold
+    # when some raising statement is reached whenever i >= W, and whenever i < -W (propositionally, over the
+    # path conditions: any spelling of the guard — two ifs, `or`, a negated chained comparison — decides the same)
     W = None
     upper_ok = lower_ok = False
-    simple = [g for g in guards if isinstance(g, ast.Compare) and len(g.ops) == 1]
-    have = {au.cmp_norm(g) for g in simple}
     atoms = set()
-    for g in simple:
-        for side in (g.left, g.comparators[0]):
-            for mon in au.poly(side):
-                for a in mon:
-                    if a != idx:
-                        atoms.add(a)
+    for n in ast.walk(int_if):
+        if isinstance(n, ast.Compare) and len(n.ops) == 1 and isinstance(n.ops[0], (ast.Lt, ast.LtE, ast.Gt, ast.GtE)):
+            for side in (X(n.left), X(n.comparators[0])):
+                try:
+                    pl = au.poly(side)
+                except Exception:
+                    continue
+                for mon in pl:
+                    for a in mon:
+                        if a != idx:
+                            atoms.add(a)
+    itest = ast.unparse(int_if.test)
+
+    class _Xfn:  # path conditions with locals expanded
+        pass
+
+    def reached(assume):
+        prem = [(shared.parse_cond(itest), True)] + [(shared.parse_cond(t), p_) for t, p_ in assume]
+        for r in shared.raising_leaves(int_if):
+            pcs = [(X(t), p_) for t, p_ in path_conditions(fi.node, r)]
+            if shared.conds_imply(prem, pcs) is True:
+                return True
+        return False
+
     for a in sorted(atoms):
-        u = au.cmp_norm(ast.parse(f"{idx} >= ({a})", mode="eval").body) in have
-        l = au.cmp_norm(ast.parse(f"{idx} < -({a})", mode="eval").body) in have
+        u = reached([(f"{idx} < ({a})", False)])
+        l = reached([(f"{idx} < -({a})", True)])
         if u or l:
             W, upper_ok, lower_ok = a, u, l
             if u and l:
@@ -304,9 +311,9 @@ def concat_width(repo: Repo, R):
     # Signal / Slice arms return their own width
     for cls in ("Signal", "Slice"):
         ok2 = False
-        for n in au.walk_no_nested(fw.node):
-            if isinstance(n, ast.If) and ast.unparse(n.test) == f"isinstance({arg}, {cls})":
-                ok2 = len(n.body) == 1 and isinstance(n.body[0], ast.Return) and ast.unparse(n.body[0].value) == f"{arg}.width"
+        for n, classes, arm in au.dispatch_arms(fw.node, arg):
+            if cls in {ast.unparse(c).split(".")[-1] for c in classes}:
+                ok2 = len(arm) == 1 and isinstance(arm[0], ast.Return) and ast.unparse(arm[0].value) == f"{arg}.width"
         R.check(ok2, rule, key_of(fw, cls), fw.site, f"width({cls}) is its own `.width`: {ok2}", why=f"width of a {cls} is misreported")
 
 
